@@ -8,8 +8,8 @@ import ticc_util as tu
 from common import show_list
 
 LEVEL = "proof"
-LEAN_PROPS = ["FastTicc.Props.C09", "FastTicc.Props.Compose", "FastTicc.Props.C01", "FastTicc.Props.C08", "FastTicc.Props.Run"]
-LEAN_HELPERS = ["FastTicc.Proofs.MainLoop", "FastTicc.Proofs.Compose", "FastTicc.Proofs.Run"]
+LEAN_PROPS = ["FastTicc.Props.C09", "FastTicc.Props.Compose", "FastTicc.Props.C01", "FastTicc.Props.C08", "FastTicc.Props.Run", "FastTicc.Props.Final", "FastTicc.Props.FrontEnd"]
+LEAN_HELPERS = ["FastTicc.Proofs.MainLoop", "FastTicc.Proofs.Compose", "FastTicc.Proofs.Run", "FastTicc.Proofs.Final"]
 RULE = ("(a) scripted label histories driven through the real fit_stacked_data (the relabel phase's output labelling is "
         "replaced by the script): converge at every round j<=limit+1, oscillate forever, limit in [1,8], labellings that "
         "empty a cluster to force repopulation; (b) traced real runs on random small data; non-trivial = at least 2 "
